@@ -26,9 +26,11 @@ def check_bez(case):
     axis, a = case["arg"]
     lo, hi, lo2, hi2, D = case["exp"]
     n = len(a)
+    U = case.get("unit", 1.0)         # the same curve in another unit of length (boxes scale with the geometry)
+    lo, hi, lo2, hi2 = lo * U, hi * U, lo2 * U, hi2 * U
     pts = []
     for i in range(n):
-        v, o = float(a[i]), OTHER[i]
+        v, o = float(a[i]) * U, OTHER[i] * U
         pts.append(svg.Point(v, o) if axis == 1 else svg.Point(o, v))
     seg = svg.QuadraticBezier(*pts) if n == 3 else svg.CubicBezier(*pts)
     dis = []
@@ -44,7 +46,7 @@ def check_bez(case):
             dis.append({"clause": "Raises", "detail": "%s of %r raised %s" % (name, seg, type(e).__name__)})
             continue
         mn, mx = (bb[0], bb[2]) if axis == 1 else (bb[1], bb[3])
-        tol = 1e-9
+        tol = 1e-9 * U
         if mn > hi / D + tol:
             dis.append({"clause": "Containment", "detail": "%s of %r: min %r on axis %d is above the curve's lowest sample %r" % (name, seg, mn, axis, hi / D), "form": name})
         elif mn < lo / D - tol:
@@ -70,15 +72,16 @@ def check_arc(case):
     if full:
         ext += 2 * math.pi
     signed = dirn * ext
-    cf, uf, vf = c02.fpt(c), c02.fpt(u), c02.fpt(v)
+    U = case.get("unit", 1.0)
+    cf, uf, vf = [tuple(x * U for x in c02.fpt(q)) for q in (c, u, v)]
     t0 = math.atan2(float(rat(th0[1])), float(rat(th0[0])))
 
     def f(t):
         th = t0 + t * signed
         return (cf[0] + uf[0] * math.cos(th) + vf[0] * math.sin(th), cf[1] + uf[1] * math.cos(th) + vf[1] * math.sin(th))
     P = svg.Point
-    want = [side_value(sd) for sd in case["exp"]]
-    scale = max(1.0, max(abs(w) for w in want))
+    want = [side_value(sd) * U for sd in case["exp"]]
+    scale = max(U, max(abs(w) for w in want))
     dis = []
 
     def mk():
@@ -86,7 +89,7 @@ def check_arc(case):
     forms = [("arc.bbox()", lambda: mk().bbox()),
              ("Path(M, arc).bbox()", lambda: svg.Path(svg.Move(None, P(*f(0.0))), mk()).bbox()),
              ("(Path(M, arc) * translate(7,-2)).bbox() shifted back", lambda: tuple(
-                 b - o for b, o in zip((svg.Path(svg.Move(None, P(*f(0.0))), mk()) * svg.Matrix.translate(7, -2)).bbox(), (7, -2, 7, -2))))]
+                 b - o for b, o in zip((svg.Path(svg.Move(None, P(*f(0.0))), mk()) * svg.Matrix.translate(7 * U, -2 * U)).bbox(), (7 * U, -2 * U, 7 * U, -2 * U))))]
     if not full:
         forms.append(("reversed arc bbox", lambda: svg.Arc(P(*f(1.0)), P(*f(0.0)), P(*cf), P(cf[0] + uf[0], cf[1] + uf[1]), P(cf[0] + vf[0], cf[1] + vf[1]), -signed).bbox()))
     for name, fn in forms:
@@ -122,7 +125,20 @@ def check_cont(case):
 
     def path(**extra):
         return svg.Path("M0,0 L10,5 L-4,8 z M20,20 L26,23", **extra)
-    if cont == "rect":
+    if cont == "use":
+        import io
+        xml = ('<svg xmlns="http://www.w3.org/2000/svg" xmlns:xlink="http://www.w3.org/1999/xlink" width="500" height="500">'
+               '<defs><rect id="r" x="1" y="2" width="30" height="40" stroke-width="%r"%s/></defs>'
+               '<use xlink:href="#r" x="10" y="20" transform="scale(%r)"/></svg>') % (
+                   swf, "" if stroke == "unset" else ' stroke="%s"' % stroke, kf)
+        try:
+            doc = svg.SVG.parse(io.StringIO(xml), reify=False)
+            obj = [e for e in doc.elements() if isinstance(e, svg.Use)][0]
+        except engine.CaseTimeout:
+            raise
+        except Exception as e:
+            return [{"clause": "Raises", "detail": "parse of %s raised %s" % (xml, type(e).__name__)}]
+    elif cont == "rect":
         obj = rect(transform=tf)
     elif cont == "path":
         obj = path(transform=tf, **kw)
@@ -157,9 +173,17 @@ def check_case(case):
     return {"dis": dis, "nontrivial": True, "class": case["kind"], "checked": ["Containment", "Tightness", "Order"]}
 
 
-def cases_from_dump(path):
+UNITS = [1e-3, 12345.0, 1e5, 0.37, 1.0 / 64]
+
+
+def cases_from_dump(path, seed=0):
+    n = 0
     for st in engine.read_dump(path):
-        yield {"kind": st["kind"], "arg": st["arg"], "exp": st["exp"]}
+        n += 1
+        case = {"kind": st["kind"], "arg": st["arg"], "exp": st["exp"]}
+        yield case
+        if st["kind"] in ("bez", "arc") and n % 2 == 0:
+            yield dict(case, unit=UNITS[(n // 2 + seed) % len(UNITS)])
 
 
 def run(tier, seed):
@@ -170,8 +194,8 @@ def run(tier, seed):
         res = engine.run_tlc(work, "MC_C08", constants=consts, invariants=["Sane", "ArcSidesOutside"], timeout=3000)
         run.add_tlc(res, "BBox brackets / arc sides / containers, %s" % consts)
         n = 0
-        for case, r in engine.replay("harness.c08", cases_from_dump(res["dump"]), chunk=100):
-            run.record(case, r, key=str(case["arg"]))
+        for case, r in engine.replay("harness.c08", cases_from_dump(res["dump"], seed), chunk=100):
+            run.record(case, r, key=str(case["arg"]) + str(case.get("unit", "")))
             if n % 500 == 5:
                 run.sample(case)
             n += 1
